@@ -9,6 +9,9 @@ sys.path.insert(0, os.path.dirname(os.path.abspath(__file__)))
 import vlib
 import treeio
 
+# parsedump prints nested JSON trees: nesting depth 256 of a bracketed construct is ~1500 levels of JSON
+sys.setrecursionlimit(max(sys.getrecursionlimit(), 60000))
+
 
 def _limits():
     # a runaway parse (non-terminating loop that keeps allocating) must die instead of exhausting the machine
@@ -26,7 +29,7 @@ def run_json(exe, args, cases, timeout=600):
         return None, "exit status %s %s" % (p.returncode, p.stderr[-500:])
     try:
         return json.loads(p.stdout), ""
-    except ValueError:
+    except (ValueError, RecursionError):
         return None, "unparsable output"
 
 
